@@ -17,7 +17,7 @@ def suites(tier):
     q = tier == "quick"
     jobs = []
     for wn, field in ((0, 1), (1, 1), (1, 2)):
-        cfg = dict(withnth=wn, field=field, records=2, nmax=3 if q else 4)
+        cfg = dict(withnth=wn, field=field, records=2 if q else 3, nmax=3 if q else 4)
         jobs.append(dict(id=jid("stream", cfg), func="zzH_C07_stream", cfg=cfg))
     for wn, field in ((0, 1), (1, 1), (1, 2)):
         cfg = dict(withnth=wn, field=field, records=3, nmax=2 if q else 3, headers=2)
